@@ -31,12 +31,26 @@ Section Valid.
         Ok ((n, fst x) :: fst y, snd y)
     end.
 
+  (* outputs (after the F23 fix):
+       for name in names: if name not in group: group[name] = result.pop(name)
+     — a tensor listed twice among the signature outputs is filed once *)
+  Fixpoint pop_all_skip (r : results) (names seen : list Z) : res (results * results) :=
+    match names with
+    | [] => Ok ([], r)
+    | n :: ns =>
+        if memZ n seen then pop_all_skip r ns seen
+        else
+          x <- pop r n ;;
+          y <- pop_all_skip (snd x) ns (n :: seen) ;;
+          Ok ((n, fst x) :: fst y, snd y)
+    end.
+
   Record groups := { g_inputs : results; g_outputs : results; g_constants : results;
                      g_intermediates : results }.
 
   Definition partition (r : results) (ins outs consts : list Z) : res groups :=
     a <- pop_all r ins ;;
-    b <- pop_all (snd a) outs ;;
+    b <- pop_all_skip (snd a) outs [] ;;
     c <- pop_all (snd b) consts ;;
     Ok {| g_inputs := fst a; g_outputs := fst b; g_constants := fst c;
           g_intermediates := snd c |}.
@@ -47,6 +61,6 @@ Section Valid.
     filter (fun n => memZ n targ) ref.
 End Valid.
 
-Arguments pop {V}. Arguments pop_all {V}. Arguments partition {V}.
+Arguments pop {V}. Arguments pop_all {V}. Arguments pop_all_skip {V}. Arguments partition {V}.
 Arguments g_inputs {V}. Arguments g_outputs {V}. Arguments g_constants {V}.
 Arguments g_intermediates {V}.
